@@ -340,13 +340,18 @@ func stubAccFromBech32(e *Exec, fn *ssa.Function, args []Value) Value {
 	if sv.Len.IsConst() && sv.Len.Val == 0 {
 		return Tuple{Bytes{Nil: true, Off: c0, Len: c0, Cap: c0}, e.newErr("empty address string is not allowed")}
 	}
+	if cs, isC := sv.concrete(); isC {
+		// literal address: decided concretely (account prefix "panacea", as the app configures)
+		hrp, data, okL := bech32DecodeLiteral(cs)
+		if !okL || hrp != "panacea" || len(data) == 0 || len(data) > 255 {
+			return Tuple{Bytes{Nil: true, Off: c0, Len: c0, Cap: c0}, e.newErr("bech32 (literal)")}
+		}
+		buf := e.newBuf(FnConst{string(data)}, c64(len(data)))
+		return Tuple{Bytes{Buf: buf, Off: c0, Len: c64(len(data)), Cap: c64(len(data))}, nilErr()}
+	}
 	t, ok := sv.wholeAtom()
 	if !ok {
-		if cs, isC := sv.concrete(); isC {
-			t = e.literalAtom(cs)
-		} else {
-			t = e.atomOfView(sv)
-		}
+		t = e.atomOfView(sv)
 	}
 	okT := smt.UF("bech32ok", "(Str) Bool", smt.Bool, t)
 	e.addAxiom(smt.Implies(smt.Eq(strlenOf(t), c0), smt.Not(okT)))
